@@ -7,12 +7,14 @@ S=/verif/seeded/$id; WT=/tmp/seedwt_$id
 export GOFLAGS=-mod=mod GOPROXY=off
 git -C /repo worktree add -q --detach $WT HEAD || exit 2
 cd $WT
+if [ -z "$SEED_SKIP_CONFIRM" ]; then
 cp $S/demo_test.go.txt $demopkg/zz_seed_demo_test.go
 echo "== demo WITHOUT patch"; go test ${SEEDTAGS} -count=1 -run "$demorun" ./$demopkg/ 2>&1 | tail -3
 git apply $S/patch.diff || { echo "patch does not apply"; }
 echo "== demo WITH patch"; go test ${SEEDTAGS} -count=1 -run "$demorun" ./$demopkg/ 2>&1 | tail -4 | cut -c1-300
 rm $demopkg/zz_seed_demo_test.go
 echo "== existing tests WITH patch"; go build ./... && go test ${SEEDTAGS} -count=1 $pkgs 2>&1 | grep -E "^(ok|FAIL|---)" | head
+fi
 cd /verif
 echo "== checks against the seeded change"
 # The patched tree is the scratch worktree (VERIF_REPO), so that checks other
